@@ -314,7 +314,7 @@ func runC20Eng(r *Run, rng *Rng, replay string) {
 	// fixed witnesses under every frequency assignment
 	for _, w := range []struct {
 		g, s, c int
-		t     c20Trace
+		t       c20Trace
 	}{
 		{1, 1, 2, c20Trace{{{0, 5}}}},
 		{1, 1, 1, c20Trace{{}}},
